@@ -98,7 +98,9 @@ Definition run_fields (b:board) (o:option san_fields) : outcome cmove :=
 Theorem from_san_scan b s :
   from_san b s =
   if is_castle_text s
-  then (if existsb (cmove_eqb (castle_move b s)) (moves_of b) then Ok (castle_move b s) else Err)
+  then (if piece_opt_eqb (piece_on b (msrc (castle_move b s))) King
+           && existsb (cmove_eqb (castle_move b s)) (moves_of b)
+        then Ok (castle_move b s) else Err)
   else run_fields b (scan s).
 Proof.
   unfold from_san. fold (castle_text s). fold (is_castle_text s). fold (castle_move b s).
@@ -136,16 +138,27 @@ Qed.
 Theorem from_san_no_panic : forall b s, from_san b s <> Panic.
 Proof.
   intros b s. rewrite from_san_scan. destruct (is_castle_text s).
-  - destruct (existsb _ _); discriminate.
+  - destruct (_ && _); discriminate.
   - apply run_fields_no_panic.
 Qed.
 
 Theorem from_san_legal : forall b s m, from_san b s = Ok m -> In m (moves_of b).
 Proof.
   intros b s m. rewrite from_san_scan. destruct (is_castle_text s).
-  - destruct (existsb _ _) eqn:E; [|discriminate]. intro H; injection H as <-.
-    apply existsb_cmove_In, E.
+  - destruct (_ && _) eqn:E; [|discriminate]. intro H; injection H as <-.
+    apply andb_prop in E as [_ E]. apply existsb_cmove_In, E.
   - apply run_fields_legal.
+Qed.
+
+(** a castling text only ever returns a move of the king *)
+Theorem from_san_castle_is_king : forall b s m,
+  is_castle_text s = true -> from_san b s = Ok m -> piece_on b (msrc m) = Some King.
+Proof.
+  intros b s m Hc. rewrite from_san_scan, Hc.
+  destruct (_ && _) eqn:E; [|discriminate]. intro H; injection H as <-.
+  apply andb_prop in E as [E _]. unfold piece_opt_eqb in E.
+  destruct (piece_on b (msrc (castle_move b s))) as [t|]; [|discriminate].
+  apply ptype_eqb_eq in E. subst; reflexivity.
 Qed.
 
 Corollary from_san_total : forall b s, from_san b s = Err \/ exists m, from_san b s = Ok m /\ In m (moves_of b).
